@@ -176,3 +176,86 @@ Theorem C17_decode_int_encode_int : forall x pad rest,
   decode_int (encode_int x pad ++ rest) = Some (x, rest).
 Proof. exact decode_int_encode_int. Qed.
 Print Assumptions C17_decode_int_encode_int.
+
+(* ---- MANIFEST replay (ManifestReplay.v = replica of ldb_versions_recover with the
+   version builder; proofs in ManifestBuilderProofs.v / ManifestReplayProofs.v) ---- *)
+From LCDB Require Import LogFormat ManifestReplay ManifestBuilderProofs ManifestReplayProofs.
+
+(* replaying the bytes of a MANIFEST written from the edits es = folding the edits,
+   one ldb_versions_apply at a time, over the empty state; the counters are the last
+   values set (log round trip o edit round trip o builder) *)
+Theorem C17_replay_fold : forall cmpname es,
+  Forall (fun e => wf_edit e = true) es ->
+  Forall (fun e => wf_bytes (edit_export e) = true) es ->
+  Forall (cmp_matches cmpname) es ->
+  fresh_adds empty_levels es ->
+  manifest_replay cmpname (write_log (map edit_export es)) =
+  finish_vstate 2 (fold_left (apply_edit ikey_compare) (map edit_canon es) vstate_init).
+Proof. exact replay_fold. Qed.
+Print Assumptions C17_replay_fold.
+
+(* a reused MANIFEST (a later session appends es2 with a writer created at the
+   file size): es2 replayed on top of the state after es1 *)
+Theorem C17_replay_append : forall cmpname es1 es2,
+  Forall (fun e => wf_edit e = true) (es1 ++ es2) ->
+  Forall (fun e => wf_bytes (edit_export e) = true) (es1 ++ es2) ->
+  Forall (cmp_matches cmpname) (es1 ++ es2) ->
+  fresh_adds empty_levels (es1 ++ es2) ->
+  manifest_replay cmpname
+    (write_log (map edit_export es1) ++
+     write_log_from (nlen (write_log (map edit_export es1))) (map edit_export es2)) =
+  finish_vstate 2
+    (fold_left (apply_edit ikey_compare) (map edit_canon es2)
+       (fold_left (apply_edit ikey_compare) (map edit_canon es1) vstate_init)).
+Proof. exact replay_append. Qed.
+Print Assumptions C17_replay_append.
+
+(* a new MANIFEST = the snapshot record of (levels, compact) followed by the edits es
+   replays to es applied to exactly that state: rolling over loses nothing *)
+Theorem C17_replay_snapshot : forall cmpname levels compact es,
+  wf_str cmpname = true -> wf_bytes cmpname = true ->
+  wf_version ikey_compare levels compact ->
+  Forall (fun e => wf_edit e = true) es ->
+  Forall (fun e => wf_bytes (edit_export e) = true) es ->
+  Forall (cmp_matches cmpname) es ->
+  fresh_adds levels es ->
+  manifest_replay cmpname
+    (write_log (map edit_export (snapshot_edit cmpname compact levels :: es))) =
+  finish_vstate 2
+    (fold_left (apply_edit ikey_compare) (map edit_canon es)
+       (mkV levels compact None None None None)).
+Proof. exact replay_snapshot. Qed.
+Print Assumptions C17_replay_snapshot.
+
+(* the snapshot record followed by nothing: exactly the state's file set and compaction
+   pointers, no counters *)
+Theorem C17_replay_snapshot_nothing : forall cmpname levels compact,
+  wf_str cmpname = true -> wf_bytes cmpname = true ->
+  wf_version ikey_compare levels compact ->
+  (forall l, (l < NLEVELS)%nat -> NoDup (map f_number (nth l levels []))) ->
+  manifest_replay_state cmpname (write_log [edit_export (snapshot_edit cmpname compact levels)]) =
+  inr (mkV levels compact None None None None).
+Proof. exact replay_state_snapshot_nothing. Qed.
+Print Assumptions C17_replay_snapshot_nothing.
+
+(* the freshness hypothesis cannot be dropped: a number added, deleted and added again at
+   one level comes back twice on replay (the recovery builder accumulates all edits) *)
+Theorem C17_replay_fold_needs_fresh :
+  level_numbers (manifest_replay [] (write_log (map edit_export cx_edits))) =
+    [[]; [5; 5]; []; []; []; []; []] /\
+  level_numbers (finish_vstate 2 (fold_left (apply_edit ikey_compare) (map edit_canon cx_edits) vstate_init)) =
+    [[]; [5]; []; []; []; []; []].
+Proof. exact replay_fold_needs_fresh. Qed.
+Print Assumptions C17_replay_fold_needs_fresh.
+
+(* the same for every user comparator that is a total order (EngineSpec.total_order):
+   the internal-key comparator is ikc_compare ucmp *)
+Theorem C17_replay_fold_any_comparator : forall ucmp, EngineSpec.total_order ucmp -> forall cmpname es,
+  Forall (fun e => wf_edit e = true) es ->
+  Forall (fun e => wf_bytes (edit_export e) = true) es ->
+  Forall (cmp_matches cmpname) es ->
+  fresh_adds empty_levels es ->
+  manifest_replay_with (ikc_compare ucmp) cmpname (write_log (map edit_export es)) =
+  finish_vstate 2 (fold_left (apply_edit (ikc_compare ucmp)) (map edit_canon es) vstate_init).
+Proof. exact replay_fold_any_comparator. Qed.
+Print Assumptions C17_replay_fold_any_comparator.
